@@ -203,13 +203,17 @@ PROPS = {
     ),
     'C13': dict(
         title='Specifications pickle by reference and unpickle to the equivalent live object',
-        contracts=['C13_pickle'], falsifier='C13', modes=['py', 'c'], level='other',
+        contracts=['C13_pickle', 'C01_decl'], falsifier='C13', modes=['py', 'c'], level='other',
+        only={'C01_decl': ['declarations.py:ProvidesClass.__init__', 'declarations.py:ClassProvides.__init__', 'declarations.py:Provides',
+                           'declarations.py:classImplementsOnly']},
         level_text="The five __reduce__ methods (InterfaceClass, Implements, the empty declaration, Provides, ClassProvides) are "
                    "verified from their real bodies: each reduces to a name or to (callable, arguments) that, under the assumed model "
                    "of pickle, rebuild the identical object (interface: its own name; class specification: implementedBy(its class), "
                    "also for classes declared with an *only* form) or the same declaration (factory/class with the recorded "
-                   "arguments). That the recorded arguments describe the current declaration after a history, equality/hash of the "
-                   "result and the byte content of pickles are checked bounded through the real pickle (all protocols).",
+                   "arguments). The recorded arguments are verified to be exactly the constructor arguments (ProvidesClass.__init__, "
+                   "ClassProvides.__init__), the shared-declaration factory Provides returns a declaration built from exactly its "
+                   "arguments (cache keyed by them), and classImplementsOnly records the class the specification pickles as. Equality/"
+                   "hash of the result, histories and the byte content of pickles are checked bounded through the real pickle (all protocols).",
         level_note="pickle itself is an assumed external contract; the link 'recorded arguments = current declaration' is bounded.",
         explanation='reductions proved over an assumed pickle model; round trips through the real pickle bounded',
     ),
@@ -258,12 +262,17 @@ PROPS = {
     ),
     'C19': dict(
         title='super() proxies see only the remainder of the MRO',
-        contracts=['C19_super'], falsifier='C19', modes=['py', 'c'], level='other',
+        contracts=['C19_super', 'C01_decl'], falsifier='C19', modes=['py', 'c'], level='other',
+        only={'C01_decl': ['declarations.py:providedBy', 'declarations.py:getObjectSpecification', 'declarations.py:ObjectSpecificationDescriptor.__get__']},
         level_text="_next_super_class and _implementedBy_super are verified from their real bodies: for s = super(C, ob) the returned "
                    "specification has exactly the bases [implementedBy(c) for c in type(ob).__mro__ after C], whether it is built or "
                    "taken from the per-class cache, and the cache stays sound (every entry has that shape for its own key) for every "
-                   "MRO and cache content. The dispatch from providedBy/implementedBy/adapter_hook to this function, the C branches "
-                   "and the follow-up of later declaration changes are checked bounded on random class DAGs.",
+                   "MRO and cache content; Implements.changed drops the per-class cache before recomputing (so a later declaration change "
+                   "on the class of the object is followed); the Python providedBy answers a super proxy through implementedBy alone, "
+                   "never through __providedBy__/__provides__ of the proxy (what the underlying object directly provides is not "
+                   "consulted), getObjectSpecification and the __providedBy__ descriptor follow the documented attribute order. "
+                   "adapter_hook passes the underlying object to the factory (C08 contracts). The dispatch inside implementedBy, the C "
+                   "branches and the follow-up of changes on OTHER classes of the MRO are checked bounded on random class DAGs.",
         level_note="implementedBy of plain classes and Implements.named are assumed contracts (C01, C02); C branches bounded.",
         explanation='the super specification builder proved; dispatch and C twins bounded',
     ),
